@@ -1842,6 +1842,13 @@ func (p *scionPacketProcessor) processOHP() disposition {
 		// TODO parameter problem -> invalid path
 		return errorDiscard("error", errMalformedPath)
 	}
+	// The header is rewritten in place below (updateSCIONLayer), ending where the decoded header
+	// ended. HdrLen may announce more bytes than a one-hop path occupies; the rewritten header
+	// would then start that many bytes into the packet and the packet would go out corrupted.
+	if int(s.HdrLen)*slayers.LineLen != slayers.CmnHdrLen+s.AddrHdrLen()+ohp.Len() {
+		// TODO parameter problem -> invalid path
+		return errorDiscard("error", errMalformedPath)
+	}
 
 	// OHP leaving our IA
 	if p.ingressFromLink == 0 {
